@@ -14,6 +14,7 @@
 (* File kinds                                                              *)
 (*   "F" formatted   "U" unformatted   "S" carries #![rustfmt::skip]        *)
 (*   "E" syntax error   "P" unclosed delimiter (fatal, caught panic path)   *)
+(*   "R" syntax error the parser recovers from (`1 === 2`): still an error    *)
 (*   "N" not UTF-8   "M" declares a module whose file is missing            *)
 (*   "A" declares a module with both x.rs and x/mod.rs                      *)
 (*   "W" formatted, but with CRLF line terminators (differs only under an     *)
@@ -22,6 +23,10 @@
 (*       file has a syntax error (its default file exists and is fine)       *)
 (*   "D" child reachable ONLY through two cfg_attr paths: a good file (this  *)
 (*       one) and a file with a syntax error, no default file                *)
+(* `ign`: the root additionally declares (first) a module gen.rs that is     *)
+(*   matched by `ignore = ["gen.rs"]` and contains a recoverable syntax error: *)
+(*   an ignored file is invisible -- never written, never a reason to fail,    *)
+(*   and never a reason to accept an error somewhere else.                     *)
 (* Root-level faults: "badtoml" (malformed rustfmt.toml next to the root),  *)
 (*   "vermismatch" (required_version), "missing" (no such path), "dir".     *)
 (***************************************************************************)
@@ -35,7 +40,7 @@ CONSTANTS MaxRoots, MaxFiles,
                           \*        next to healthy all-unformatted roots
           LocalCfgAborts  \* TRUE: model main::format's `load_config(..)?` as the code has it
 
-ParseFail == {"E", "P", "N"}
+ParseFail == {"E", "P", "N", "R"}
 ResolveFail == {"M", "A", "C"}
 (* what the code does with "D": find_mods_outside_of_ast swallows the parse  *)
 (* failure (`Err(..) => continue`); the error stays counted in the session   *)
@@ -50,9 +55,9 @@ KindsOf(n, fault, fpos, pat) ==
      ELSE IF j % 2 = 1 THEN "U" ELSE "F"]
 
 RootShapes ==
-  { [n |-> n, rp |-> rp, fault |-> f, fpos |-> fp, pat |-> p] :
+  { [n |-> n, rp |-> rp, fault |-> f, fpos |-> fp, pat |-> p, ign |-> g] :
       n \in 1 .. MaxFiles, rp \in 1 .. MaxFiles, f \in {"none"} \cup FileFaults \cup RootFaults,
-      fp \in 0 .. MaxFiles, p \in {"allU", "allF", "mixed"} }
+      fp \in 0 .. MaxFiles, p \in {"allU", "allF", "mixed"}, g \in BOOLEAN }
 
 WellFormed(r) ==
   /\ r.rp <= r.n
@@ -60,6 +65,7 @@ WellFormed(r) ==
   /\ (r.fault \notin FileFaults) => r.fpos = 0
   /\ (r.fault \in {"S", "C", "D"}) => r.fpos # r.rp   \* child-only kinds
   /\ (r.pat = "mixed") => r.n > 1
+  /\ r.ign => (r.fault \in {"none", "E", "R", "P", "M"} /\ r.pat # "mixed")
 
 Shapes == {r \in RootShapes : WellFormed(r)}
 
@@ -91,7 +97,7 @@ SeqsUpTo(S, n) == IF n = 0 THEN {<<>>} ELSE
                     LET P == SeqsUpTo(S, n - 1) IN
                     P \cup {Append(s, x) : s \in {q \in P : Len(q) = n - 1}, x \in S}
 
-Healthy == [n |-> IF MaxFiles > 1 THEN 2 ELSE 1, rp |-> 1, fault |-> "none", fpos |-> 0, pat |-> "allU"]
+Healthy == [n |-> IF MaxFiles > 1 THEN 2 ELSE 1, rp |-> 1, fault |-> "none", fpos |-> 0, pat |-> "allU", ign |-> FALSE]
 RootSeqs ==
   IF GenMode = "all" THEN SeqsUpTo(Shapes, MaxRoots) \ {<<>>}
   ELSE {<<s>> : s \in Shapes} \cup {<<s, Healthy>> : s \in Shapes}
